@@ -22,6 +22,7 @@ func checkC12(c *Ctx, r *Report) {
 	c12R4(c, r)
 	borrow(c, r, c14R1, "C14.R1.paths", "C12.R5.rejected-not-handled", 1, "a message the accept function rejected or ignored, or that did not decode, never reaches the handler", nil, "the handler is then given the library's own error reply (QR set, sections wiped) as if a client had sent it, and its answer is a second frame on the connection")
 	c12UDPSizePrecedence(c, r, "C12.R3.udpsize-precedence")
+	c12NoReleaseAfterServe(c, r, "C12.R4.no-release-after-serve")
 }
 
 func isConnRead(call *ssa.Call) bool {
